@@ -493,9 +493,9 @@ theorem parse_export_cluster' {Rd : K → Prop} (C : Codec K) (hC : C.LawfulOn R
     obtain ⟨h1, h2⟩ := hw
     refine ⟨pp, ?_⟩
     have hm := mapM_ok' (fun ea : Elem × Attrs => parseDh C.toNumFmt (C.sdDist par.sigmaApr) ea.2)
-      (exportDh C.toNumFmt true C.pos) (fun h => h) dhs
-      (fun h hh => parse_export_dh C.toNumFmt hC.num _ C.pos h (h1 h hh).1 (h1 h hh).2.1 (h1 h hh).2.2.2.2 (h1 h hh).2.2.1 (h1 h hh).2.2.2.1)
-    have hel : (dhs.map (exportDh C.toNumFmt true C.pos)).any (fun ea => decide (ea.1 ≠ Elem.dh)) = false := by
+      (exportDh C.toNumFmt true C.pos dhStdevAlways) (fun h => h) dhs
+      (fun h hh => parse_export_dh_always C.toNumFmt hC.num _ C.pos h (h1 h hh).1 (h1 h hh).2.1 (h1 h hh).2.2.2 (h1 h hh).2.2.1)
+    have hel : (dhs.map (exportDh C.toNumFmt true C.pos dhStdevAlways)).any (fun ea => decide (ea.1 ≠ Elem.dh)) = false := by
       simp [exportDh]
     have hmir : mirrorClusterIf C ys (.hdiffs dhs cov) = .hdiffs dhs cov := by
       cases ys <;> rfl
